@@ -51,7 +51,7 @@ def main():
                 tier = "quick"
                 if ":" in c:
                     c, tier = c.split(":")
-                rc, out = sh("./check %s --tier %s" % (c, tier), "/verif", timeout=6000)
+                rc, out = sh("VERIF_EVIDENCE_DIR=/verif/out/seed-evidence ./check %s --tier %s" % (c, tier), "/verif", timeout=6000)
                 lines = [l for l in out.splitlines() if l.startswith("VIOLATION") or l.startswith("BROKEN") or l.startswith("INCONCLUSIVE")]
                 det["%s:%s" % (c, tier)] = {"exit": rc, "lines": [l[:300] for l in lines[:6]]}
                 print(c, tier, "exit", rc)
